@@ -24,11 +24,11 @@ package core
 
 import (
 	"fmt"
-	"os"
-	"strings"
 	"go/token"
 	"go/types"
+	"os"
 	"reflect"
+	"strings"
 	"unsafe"
 
 	"golang.org/x/tools/go/ssa"
